@@ -587,3 +587,7 @@ M('C13', 'sharded-update-pad-eye-default-dtype', DS, "        [jnp.eye(max_size,
 M('C07', 'clip-norm-numpy-sqrt', DS, "            jnp.sqrt(float(rmsprop_update.size)))\n", "            np.sqrt(rmsprop_update.size))\n")
 TW('C07', 'twin-clip-norm-float-wrapped-numpy', DS, "            jnp.sqrt(float(rmsprop_update.size)))\n", "            float(np.sqrt(rmsprop_update.size)))\n")
 M2('C17', 'redist-tree-shared-row', [(RA, "    res = {}\n    for p in list(score_dict):\n", "    res = {}\n    row = [0] * num_axes\n    for p in list(score_dict):\n"), (RA, "      cur[dirs[-1]] = [0] * num_axes\n", "      cur[dirs[-1]] = row\n")])
+
+TW(['C03', 'C02'], 'twin-gate-accept-form-strict-less', DS, '      return lax.cond(\n          _skip(error), lambda _: old_p, lambda _: new_p, operand=None)\n', "      return lax.cond(jnp.less(error, inverse_failure_threshold), lambda: new_p, lambda: old_p)\n", count=3)
+M(['C03', 'C02'], 'gate-reject-form-without-isnan', DS, '      return lax.cond(\n          _skip(error), lambda _: old_p, lambda _: new_p, operand=None)\n', "      return lax.cond(error >= inverse_failure_threshold, lambda: old_p, lambda: new_p)\n", count=3)
+M(['C03', 'C02'], 'gate-accept-form-non-strict', DS, '      return lax.cond(\n          _skip(error), lambda _: old_p, lambda _: new_p, operand=None)\n', "      return lax.cond(jnp.less_equal(error, inverse_failure_threshold), lambda: new_p, lambda: old_p)\n", count=3)
